@@ -274,6 +274,9 @@ func leanOfGoName(p *pkg, g string) (string, bool) {
 	if l, ok := typeTable[g]; ok && !concreteTypes[g] {
 		return l, true
 	}
+	if l, ok := concreteTable[g]; ok && concreteTypes[g] {
+		return l, true
+	}
 	if arrayLenOf(g) >= 0 {
 		return "Bytes", true // a fixed-size byte array: a byte list whose length the translation keeps (copyInto, replicate)
 	}
@@ -1523,7 +1526,7 @@ func (f *fn) stmt(o *w, st ast.Stmt) {
 					if !ok {
 						fail(vs.Pos(), "type of var %s", n.Name)
 					}
-					zero := map[string]string{"Int": "(0 : Int)", "Bool": "false", "Bytes": "([] : Bytes)", "UInt8": "(0 : UInt8)", "(Option GoErr)": "none"}[t.lean]
+					zero := map[string]string{"Int": "(0 : Int)", "Bool": "false", "Bytes": "([] : Bytes)", "UInt8": "(0 : UInt8)", "(Option GoErr)": "none", "Node": "Node.null"}[t.lean]
 					if n := arrayLenOf(t.gon); n >= 0 {
 						zero = fmt.Sprintf("(List.replicate %d (0 : UInt8))", n)
 					}
@@ -2044,6 +2047,11 @@ func translate(tg *target) (text string, err error) {
 	if fd == nil || fd.Body == nil {
 		return "", fmt.Errorf("function not found")
 	}
+	if tg.MapIterators {
+		cp := *fd
+		cp.Body = rewriteMapIterators(fd.Body)
+		fd = &cp
+	}
 	if tg.InlineClosures {
 		cp := *fd
 		cp.Body = inlineClosures(fd.Body)
@@ -2052,7 +2060,7 @@ func translate(tg *target) (text string, err error) {
 	if tg.StructLocal != "" {
 		// scalar replacement of the struct-typed local (structlocal.go): the translation sees the rewritten body
 		cp := *fd
-		cp.Body = rewriteStructLocal(p, fd, tg.StructLocal)
+		cp.Body = rewriteStructLocal(p, fd, tg.StructLocal, tg.StructLocalZero)
 		fd = &cp
 	}
 	f := &fn{tg: tg, p: p, decl: fd, uses: map[string]bool{}, builders: map[string]string{}, rangeOf: map[string]string{}, makeIsBuilder: map[*ast.CallExpr]bool{}}
@@ -2207,6 +2215,9 @@ func main() {
 		b.WriteString("import Ucan.Model.GoM\n")
 		for _, im := range gf.Imports {
 			b.WriteString("import Ucan.Gen." + im + "\n")
+		}
+		for _, im := range gf.ModelImports {
+			b.WriteString("import Ucan.Model." + im + "\n")
 		}
 		b.WriteString("/-! GENERATED by /verif/harness/cmd/go2lean from the current go-ucan source. Do not edit. -/\n")
 		b.WriteString("set_option linter.unusedVariables false\n")
